@@ -144,7 +144,7 @@ fn run_case(c: &Case) -> Result<(), Fail> {
 		Ok(Ok(())) => (),
 	}
 	// expected destination content
-	let mut exp = Model { specs: dcols.clone(), cols: src_model.cols.clone() };
+	let mut exp = Model { specs: dcols.clone(), cols: src_model.cols.clone(), locked: Default::default(), postponed: vec![] };
 	exp.cols[0] = translate(&src_model.cols[0], &c.dst);
 	let result_dir = if c.overwrite { &from } else { &to };
 	let mut d = Exec::detached(result_dir, &dst_cfg, universe.clone());
